@@ -154,7 +154,7 @@ func (r *run) tcpOp(chunks [][]byte) {
 		hexes = append(hexes, ktext.Hex(c))
 	}
 	op := "tcp " + strings.Join(hexes, "|")
-	out, tail := collect(sock.Inbound(), 2*time.Second)
+	out, tail := collect(sock.Inbound(), 2*time.Second+time.Duration(len(all))*2*time.Millisecond)
 	r.emit(op, strings.Join(append(out, tail), " ; "))
 	if want, wtail := expectTCP(all); tail != "timeout" && (strings.Join(want, " ; ") != strings.Join(out, " ; ") || wtail != tail) {
 		r.violation("tcp-frames-differ", op, fmt.Sprintf("Inbound yielded %d services then %s; the stream holds %d well-formed frames then %s", len(out), tail, len(want), wtail))
@@ -269,8 +269,12 @@ func (r *run) c16tcp(budget int) {
 		// longer streams, arbitrary coalescing
 		stream, _ = r.frames(1+r.g.R.Intn(50), true)
 		var pos []int
+		every := 20
+		if len(stream)/200 > every {
+			every = len(stream) / 200 // a stream with frames of tens of kilobytes: still a few hundred segments
+		}
 		for p := 1; p < len(stream); p++ {
-			if r.g.R.Intn(20) == 0 {
+			if r.g.R.Intn(every) == 0 {
 				pos = append(pos, p)
 			}
 		}
